@@ -15,7 +15,7 @@ import (
 func init() {
 	register("C06", &propDef{
 		Title: "Source addresses print to strings that parse back to the same address",
-		Rules: []func(*Checker){ruleC06Ctor, ruleC06Sanitiser, ruleC06URLPath, ruleC06SubRaw, ruleC06FinalPattern, ruleC06Host, ruleC06CanonURL, aliasRuleFiltered(ruleC07Query, "C07.query", "C06.query", 1, func(o Oblig) bool { return strings.Contains(o.Key, "archive value normalised") }), ruleC06Manifest, ruleC06Print, ruleAddrErrors("C06.errors"), ruleNameAgreement("C06.names", "sourceaddrs"), ruleURLFields("C06.urlfields"), ruleLiteralAgreement("C06.fields", "sourceaddrs", nil), ruleC06QueryCut, ruleURLHostUntouched("C06.host"), ruleAllFieldsPrinted("C06.allfields"), ruleTypePrefixAfterSplit("C06.splitfirst"), ruleSubPathFromSplitterOnly("C06.splitonce"), ruleSanitisersAgree("C06.sanagree")},
+		Rules: []func(*Checker){ruleC06Ctor, ruleC06Sanitiser, ruleC06URLPath, ruleC06SubRaw, ruleC06FinalPattern, ruleC06Host, ruleC06CanonURL, aliasRuleFiltered(ruleC07Query, "C07.query", "C06.query", 1, func(o Oblig) bool { return strings.Contains(o.Key, "archive value normalised") }), ruleC06Manifest, ruleC06Print, ruleAddrErrors("C06.errors"), ruleNameAgreement("C06.names", "sourceaddrs"), ruleURLFields("C06.urlfields"), ruleLiteralAgreement("C06.fields", "sourceaddrs", nil), ruleC06QueryCut, ruleURLHostUntouched("C06.host"), ruleAllFieldsPrinted("C06.allfields"), ruleTypePrefixAfterSplit("C06.splitfirst"), ruleSubPathFromSplitterOnly("C06.splitonce"), ruleSanitisersAgree("C06.sanagree"), aliasRuleFiltered(ruleC07Routes, "C07.routes", "C06.typekept", 1, func(o Oblig) bool { return strings.Contains(o.Key, "source type registered") })},
 		NotDecided: []string{
 			"the round trip itself: URL escaping, fragments, case folding, registry-address normalisation are facts about string contents",
 			"idempotence of printing for every accepted spelling",
@@ -32,7 +32,7 @@ func init() {
 	})
 	register("C11", &propDef{
 		Title: "Relative resolution stays inside the package and follows path algebra",
-		Rules: []func(*Checker){ruleC11Escape, ruleC11Same, ruleC11JoinOrder, ruleC06SubpathOnly("C11.local"), ruleC11LocalForm, ruleLiteralAgreement("C11.fields", "sourceaddrs", nil), ruleJoinOperandsAsGiven("C11.joinraw")},
+		Rules: []func(*Checker){ruleC11Escape, ruleC11Same, ruleC11JoinOrder, ruleC06SubpathOnly("C11.local"), ruleC11LocalForm, ruleLiteralAgreement("C11.fields", "sourceaddrs", nil), ruleJoinOperandsAsGiven("C11.joinraw"), ruleC11Absolute},
 		NotDecided: []string{
 			"the path algebra itself (segment counting, composition of successive resolutions): path.Join / path.Clean are trusted library semantics",
 		},
@@ -2142,6 +2142,93 @@ func ruleURLFields(id string) func(*Checker) {
 				g := loadedField(cl.Call.Args[0])
 				c.check(g != nil && g == fieldOf(fa), id, name, "URL field "+fieldOf(fa).Name()+" normalised from itself", p.Pos(st.Pos()), "u.F = f(u.F)", "a field of the URL is overwritten with the normalised value of ANOTHER field: the path's (or fragment's) recorded encoding is destroyed, so an escaped slash in it turns into a real one and the address parses to a different value")
 			})
+		}
+	}
+}
+
+// ruleC11Absolute: an absolute second argument is returned unchanged.
+func ruleC11Absolute(c *Checker) {
+	const R = "C11.absolute"
+	c.rule(R, "In each resolve function (two address parameters of one interface type, the second asserted to LocalSource without comma-ok) the assertion lies past a branch on which the second argument is a LocalSource (C19.index's type-test idioms), and the other edge of that branch returns the second argument itself with a nil error on every path: anything that is not a local address is absolute and comes back unchanged, and nothing absolute reaches the assertion, where it would panic.", 2)
+	p := c.P
+	for _, fn := range p.Funcs {
+		if !p.InModule(fn) || !strings.HasSuffix(pkgPathOf(p, fn), addrPkg) || len(fn.Params) != 2 || fn.Blocks == nil {
+			continue
+		}
+		if !types.Identical(fn.Params[0].Type(), fn.Params[1].Type()) || !types.IsInterface(fn.Params[1].Type()) {
+			continue
+		}
+		if fn.Object() == nil || !fn.Object().Exported() || fn.Signature.Results().Len() != 2 || !types.Identical(fn.Signature.Results().At(0).Type(), fn.Params[1].Type()) {
+			continue
+		}
+		b := fn.Params[1]
+		key := p.FuncName(fn) + "/second argument"
+		asserted := false
+		eachInstr(fn, func(in ssa.Instruction) {
+			ta, ok := in.(*ssa.TypeAssert)
+			if !ok || ta.CommaOk || canon(ta.X) != ssa.Value(b) {
+				return
+			}
+			if n, ok := ta.AssertedType.(*types.Named); !ok || n.Obj().Name() != "LocalSource" {
+				return
+			}
+			asserted = true
+			ix := &idxProver{p: p, fn: fn}
+			blk, isT, why, ok := ix.assertGuard(ta)
+			if !ok {
+				c.fail(R, key, "unguarded assertion", p.Pos(ta.Pos()), "the assertion of the second argument to LocalSource is not behind a test that it is one: an absolute argument panics here instead of being returned")
+				return
+			}
+			// the other edge: every path returns (b, nil)
+			start := blk.Succs[1-isT]
+			seen := map[*ssa.BasicBlock]bool{}
+			bad := ""
+			nret := 0
+			var walk func(x *ssa.BasicBlock)
+			walk = func(x *ssa.BasicBlock) {
+				if seen[x] || bad != "" {
+					return
+				}
+				seen[x] = true
+				if x == ta.Block() {
+					bad = "the not-local edge leads to the assertion"
+					return
+				}
+				if len(x.Instrs) > 0 {
+					if r, ok := x.Instrs[len(x.Instrs)-1].(*ssa.Return); ok {
+						nret++
+						if len(r.Results) != 2 || canon(r.Results[0]) != ssa.Value(b) || !isNilConst(r.Results[1]) {
+							bad = "a return on the not-local edge at " + p.Pos(r.Pos()) + " does not return the second argument itself with a nil error"
+						}
+						return
+					}
+				}
+				for _, sx := range x.Succs {
+					walk(sx)
+				}
+			}
+			walk(start)
+			if bad == "" && nret == 0 {
+				bad = "the not-local edge never returns"
+			}
+			if bad != "" {
+				c.fail(R, key, "absolute returned unchanged", p.Pos(ta.Pos()), bad)
+				return
+			}
+			c.pass(R, key, "absolute returned unchanged", p.Pos(ta.Pos()), why+"; the other edge returns the argument itself, nil")
+		})
+		if !asserted {
+			// written with a comma-ok test or a type switch: nothing can panic; some path hands the argument back
+			for _, r := range returnsOf(fn) {
+				if len(r.Results) == 2 && canon(r.Results[0]) == ssa.Value(b) && isNilConst(r.Results[1]) {
+					c.pass(R, key, "absolute returned unchanged", p.Pos(r.Pos()), "no unchecked assertion of the second argument; it is returned itself with a nil error here (which inputs take this return is not decided in this form)")
+					asserted = true
+					break
+				}
+			}
+			if !asserted {
+				c.fail(R, key, "absolute returned unchanged", p.Pos(fn.Pos()), "no path returns the second argument itself with a nil error")
+			}
 		}
 	}
 }
